@@ -237,6 +237,8 @@ class MultiMachine(Machine):
         fitted = False
         stale_results = False
         member_fix_used = False
+        fixed_multi = set()  # names fixed through the multi-fit itself
+        pre_limited = set(o[2][1][0] for o in ops if o[0] == "pre" and o[2][0] == "limit")  # (a value outside a member's limits is clamped by the minimizer)
         member_set_used = False  # a value assigned on a MEMBER: how it reaches the multi-fit's minimizer is outside the statement ("operations issued on the multi-fit")
 
         def viol(p, oracle, obs, msg, step, **kw):
@@ -397,6 +399,7 @@ class MultiMachine(Machine):
                         continue
                     multi.fix_parameter(a["name"], a["value"])
                     fixed.add(a["name"])
+                    fixed_multi.add(a["name"])
                     for s in sims:
                         if a["name"] in s.ref.par_names:
                             s.ref.fixed[a["name"]] = True
@@ -406,6 +409,7 @@ class MultiMachine(Machine):
                         continue
                     multi.release_parameter(a["name"])
                     fixed.discard(a["name"])
+                    fixed_multi.discard(a["name"])
                     for s in sims:
                         s.ref.fixed.pop(a["name"], None)
                     after = "release@multi"
@@ -522,7 +526,7 @@ class MultiMachine(Machine):
                     nd = sum(len(s.ref.d) for s in sims)
                     if free < 1 or nd < free + 2 or not in_domain():
                         continue
-                    held = {} if member_set_used else {nm: pvals()[names.index(nm)] for nm in sorted(fixed)}
+                    held = {} if member_set_used else {nm: pvals()[names.index(nm)] for nm in sorted(fixed_multi) if nm not in pre_limited}
                     try:
                         multi.do_fit()
                     except Exception as e:
@@ -532,8 +536,8 @@ class MultiMachine(Machine):
                         res.discard = "fit-left-domain"
                         return
                     for nm, v in held.items():
-                        # a parameter fixed through the multi-fit (or in a member before the multi-fit was built) is not varied by do_fit, whatever was
-                        # added to the multi-fit between the fix and the fit
+                        # a parameter fixed through the multi-fit is not varied by do_fit, whatever was added to the multi-fit between the fix and the fit
+                        # (not judged: parameters fixed in a member before the multi-fit was built, parameters with member-level limits)
                         if pvals()[names.index(nm)] != v:
                             viol("C11", "fixed-moved", "multi.parameter_values", "parameter %s is fixed at %r; MultiFit.do_fit moved it to %r" % (nm, v, pvals()[names.index(nm)]), step)
                     if held:
